@@ -29,11 +29,12 @@ func (s *flaggedStore) Drop() {
 
 func (s *flaggedStore) modified() error {
 	if atomic.LoadUint32(&s.Dirty) == 0 {
-		atomic.StoreUint32(&s.Dirty, 1)
 		err := s.Store.Put(s.flushIDKey, []byte{flushable.DirtyPrefix})
 		if err != nil {
 			return err
 		}
+		// only a dirty mark that has reached the store makes the store dirty in memory
+		atomic.StoreUint32(&s.Dirty, 1)
 	}
 	return nil
 }
